@@ -23,7 +23,8 @@ EXTENDS Mux, FiniteSets
 CONSTANTS D, R,          \* dispatcher and registrar process ids (disjoint)
           Msgs,          \* the [msg, short] records a dispatcher may be given
           Regs,          \* the registrations (records as in Mux, with hid) a registrar may perform
-          MaxCalls,      \* calls per process
+          MaxCalls,      \* calls per dispatcher
+          MaxRegs,       \* calls per registrar
           Locked         \* TRUE: as the code; FALSE: no lock (sensitivity)
 VARIABLES pc,            \* process -> control state
           table,         \* sequence of registrations applied, in order (Mux!Dispatch reads it)
@@ -67,7 +68,7 @@ DReturn(p) == /\ pc[p] = "unl" /\ pc' = [pc EXCEPT ![p] = "idle"]
               /\ UNCHANGED <<cur, arg, table, readers, wmutex, calls, sawhid, atcall, updating, crashed>>
 
 \* ---- registrar
-RCall(r, g) == /\ pc[r] = "idle" /\ calls[r] < MaxCalls
+RCall(r, g) == /\ pc[r] = "idle" /\ calls[r] < MaxRegs
                /\ pc' = [pc EXCEPT ![r] = "want"] /\ calls' = [calls EXCEPT ![r] = @ + 1]
                /\ arg' = [arg EXCEPT ![r] = g]
                /\ UNCHANGED <<table, readers, wmutex, cur, sawhid, atcall, updating, crashed>>
